@@ -149,6 +149,29 @@ func (g *gen) addDstMode(c *Case, src string, size int, m string) {
 		Data: hex.EncodeToString(prefix)}}, c.Args...)
 }
 
+// aliasAD makes the associated data share memory with another argument (the Go types allow any
+// aliasing between the []byte parameters): exactly the nonce slice, or a window of the plaintext.
+func (g *gen) aliasAD(c *Case, adName, nonceName, ptName string) {
+	ad := c.arg(adName)
+	if ad == nil {
+		return
+	}
+	switch g.r.Intn(16) {
+	case 0:
+		if n := c.arg(nonceName); n != nil && !n.Nil {
+			*ad = Arg{Name: adName, Buf: n.Buf, Off: n.Off, Len: n.Len, Cap: n.Cap}
+			c.Path += "+ad-is-nonce"
+		}
+	case 1:
+		if p := c.arg(ptName); p != nil && !p.Nil && p.Len >= 2 {
+			lo := g.r.Intn(p.Len - 1)
+			ln := 1 + g.r.Intn(p.Len-lo-1)
+			*ad = Arg{Name: adName, Buf: p.Buf, Off: p.Off + lo, Len: ln, Cap: p.Cap - lo}
+			c.Path += "+ad-inside-plaintext"
+		}
+	}
+}
+
 func flip(b []byte, r *lib.Rand) []byte {
 	out := append([]byte(nil), b...)
 	if len(out) > 0 {
@@ -313,6 +336,7 @@ func (g *gen) cbcSealCase() *Case {
 		{name: "additionalData", data: g.r.Bytes(g.r.Intn(40)), nilable: true, spare: -1},
 		{name: "key", data: g.r.Bytes(keyLen), spare: -1},
 	})
+	g.aliasAD(c, "additionalData", "nonce", "plaintext")
 	g.addDst(c, "plaintext", len(pkcs7(pt, 16))+p.tag)
 	return c
 }
@@ -467,6 +491,7 @@ func (g *gen) encSymCase() *Case {
 		req{name: "nonce", data: g.r.Bytes(ns), nilable: true, spare: -1},
 		req{name: "associatedData", data: g.r.Bytes(g.r.Intn(40)), nilable: true, spare: -1})
 	g.layout(c, reqs)
+	g.aliasAD(c, "associatedData", "nonce", "plaintext")
 	return c
 }
 
